@@ -74,6 +74,7 @@ HARNESS_OK=1
 [ -x harness/verifcheck ] || HARNESS_OK=0
 # private copies so that a concurrent rebuild cannot disturb this run
 if [ $HARNESS_OK = 1 ]; then cp harness/verifcheck "$VERIF_WORK/verifcheck"; fi
+if [ "$PROP" = C16 ] && [ -x harness/verifrace ]; then cp harness/verifrace "$VERIF_WORK/verifrace"; export VERIF_RACE_BIN="$VERIF_WORK/verifrace"; fi
 flock -u 9
 
 if [ $HARNESS_OK = 0 ]; then
